@@ -2102,11 +2102,12 @@ def streams(h, slots=None):
     return out
 
 
-def first_mismatch(a, b, tol):
+def first_mismatch(a, b, tol, per_frame=0.0):
+    """first frame where the streams differ by more than (tol + per_frame * (frame number + 2)) * peak"""
     n = min(len(a), len(b))
     peak = max([1.0] + [abs(x) for x in a[:n]])
     for j in range(n):
-        if not abs(a[j] - b[j]) <= tol * peak:
+        if not abs(a[j] - b[j]) <= (tol + per_frame * (j + 2)) * peak:
             return j
     return None
 
@@ -2266,6 +2267,7 @@ class C05(Prop):
             # same f32 blend: measured <= 2 ulp of the peak on the unchanged tree; 32 ulp allowed
             tol = 4e-6 if ty == "f32" else 1e-9
         ref = st["0"]
+        per_frame = 0.0
         # Nearest kernels are discontinuous in the evaluation instant: where the exact instant sits on a tie, the
         # rounding of the position legitimately picks either neighbour. Those frames are skipped.
         ties = set()
@@ -2296,6 +2298,10 @@ class C05(Prop):
                 span = max([inf.g[1] for inf in infos.values() if inf is not None and inf.g] + [1])
                 steps = span * max(1.0, float(i0.orig)) + 16
                 tol = max(tol, 4.0 * steps * span * 2.0 ** -52)
+                # ... and the carry between calls (`last_index = idx - consumed`) keeps what has accumulated: after j output
+                # frames the position carries up to j roundings of ulp(span)/2 (same term as in the oracle of C08); over a
+                # million frames that is a few 1e-9 input frames
+                per_frame = 4.0 * span * 2.0 ** -52
         for slot in sorted(st):
             if slot == "0":
                 continue
@@ -2316,7 +2322,7 @@ class C05(Prop):
                                            "chunks": h.meta["chunks"]},
                                 "ops": h.ops, "meta": h.meta, "real": "", "model": None, "model_predicts": True})
                     return out
-                j = first_mismatch(a_, b_, tol)
+                j = first_mismatch(a_, b_, tol, per_frame)
                 if j is not None:
                     out.append({"property": "C05", "kind": h.meta["kind"], "ty": ty, "clause": "streams-differ", "calm": True,
                                 "step": len(h.ops) - 1, "op": h.ops[-1],
@@ -2762,7 +2768,7 @@ class C17(Prop):
     rule = ("twin slots with identical parameters and call history, slot 0 instantiated for f32, slot 1 for f64, all seven "
             "types, valid histories with ratio/chunk changes, masks, partial calls: statuses, returned counts and all getters "
             "must be identical at every step; dumped outputs must agree within (64 + sqrt(table points))*eps_f32*peak (the square root "
-            "term only for the real sinc tables, built in the sample type). distinct = (config, feature set)")
+            "term for the real sinc tables and the FFT filters, which are built in the sample type). distinct = (config, feature set)")
     assumptions = COMMON_ASSUME + ["the numeric closeness is measured, not proved"]
     n_quick = 120
     n_thorough = 3000
@@ -2834,6 +2840,11 @@ class C17(Prop):
                     i0 = infos.get("0")
                     if i0 is not None and i0.kind in ("sincin", "sincout") and i0.p[-1] in ("auto", "scalar", "avx", "sse"):
                         mult += math.sqrt(i0.L * int(i0.p[4]))
+                    if i0 is not None and i0.kind in gen.FFT:
+                        # the synchronous types build their filter the same way: make_sincs over fft_size_in points in the
+                        # sample type (44100 points for 44100 -> 44101: measured 65 eps)
+                        sub_ = 1 if i0.kind == "fftio" else int(i0.p[3])
+                        mult += math.sqrt(fft_sizes(i0.ri, i0.ro, i0.chunk0 // sub_, i0.kind == "fftout")[0])
                     for j, (x, y) in enumerate(zip(va, vb)):
                         if not abs(x - y) <= mult * 2.0 ** -23 * peak:
                             out.append(viol("C17", h, k, infos.get("0"), "f32-output-far-from-f64",
